@@ -14,19 +14,81 @@
     rt_td_norm d s | rt_td_neg d s | rt_td_sub d1 s1 d2 s2 -> "days,seconds"
     rt_td_lt d1 s1 d2 s2 -> 0/1 | rt_td_total d s -> int | rt_td_of s -> "days,seconds"
   ints are decimal, strings comma-separated code points (Driver/Proto.lean).
+
+  Decoders (ICal/Gen/BodiesDec.lean); a text argument with a non-ASCII character answers `unmodelled`
+  (the `int()` of the model is CPython's for ASCII); results `ok:<value>` | `err:<ExceptionName>`:
+    body_vDate_from t -> ok:y,m,d      body_vTime_from t -> ok:h,m,s      body_vInt_from t -> ok:int
+    body_vDatetime_from t -> ok:y,m,d,h,mi,s,u    (u = 1 iff the parameter `tzp.localize_utc` was applied)
+    body_vUTCOffset_from t -> ok:seconds
+    body_vDuration_from t g -> ok:seconds    g = what the real DURATION_REGEX.match(t) answered: `N` (None) or
+                                             six `;`-separated groups, each `-` (None) or `=`<code points>
+    body_dur_groups t -> the hand model `durGroups` of that regex in the same encoding
 -/
 import ICal.Driver.Proto
 import ICal.Gen.Bodies
+import ICal.Gen.BodiesDec
 namespace ICal.Driver
-open ICal.Proto ICal.PyRT ICal.Gen.Bodies
+open ICal.Proto ICal.PyRT ICal.Gen.Bodies ICal.Gen.BodiesDec
 
 private def ints (l : List String) : Option (List Int) := l.mapM decInt
 
 private def tdOf (d s : Int) : Option TD := if 0 ≤ s then some ⟨d, s.toNat⟩ else none
 private def tdS (t : TD) : String := s!"{t.days},{t.seconds}"
 
+private def excS : Exc → String
+  | .valueError => "err:ValueError"
+  | .overflowError => "err:OverflowError"
+  | .keyError => "err:KeyError"
+  | .indexError => "err:IndexError"
+  | .attributeError => "err:AttributeError"
+  | .typeError => "err:TypeError"
+
+private def pyS {α : Type} (f : α → String) : Py α → String
+  | .ok v => "ok:" ++ f v
+  | .error e => excS e
+
+private def asciiText (a : String) (f : Str → String) : Option String :=
+  let s := decStr a
+  if s.all (fun c => c.toNat < 128) then some (f s) else some "unmodelled"
+
+private def encGroup : Option Str → String
+  | none => "-"
+  | some s => "=" ++ encStr s
+
+private def decGroup (s : String) : Option (Option Str) :=
+  if s == "-" then some none
+  else if s.startsWith "=" then some (some (decStr (s.drop 1).toString)) else none
+
+private def decGroups (s : String) :
+    Option (Option (Option Str × Option Str × Option Str × Option Str × Option Str × Option Str)) :=
+  if s == "N" then some none
+  else
+    match (s.splitOn ";").mapM decGroup with
+    | some [a, b, c, d, e, f] => some (some (a, b, c, d, e, f))
+    | _ => none
+
+/-- the stand-in for `tzp.localize_utc`: marks the datetime it is applied to -/
+private def markUtc (d : PyDateTime) : PyDateTime := { d with year := d.year + 100000 }
+
+private def dtS (d : PyDateTime) : String :=
+  if d.year ≥ 100000 then s!"{d.year - 100000},{d.month},{d.day},{d.hour},{d.minute},{d.second},1"
+  else s!"{d.year},{d.month},{d.day},{d.hour},{d.minute},{d.second},0"
+
 def handleBodies (op : String) (args : List String) : Option String :=
   match op, args with
+  | "body_vDate_from", [a] => asciiText a fun s => pyS (fun d => s!"{d.year},{d.month},{d.day}") (vDate_from_ical s)
+  | "body_vTime_from", [a] => asciiText a fun s => pyS (fun d => s!"{d.hour},{d.minute},{d.second}") (vTime_from_ical s)
+  | "body_vDatetime_from", [a] => asciiText a fun s => pyS dtS (vDatetime_from_ical s markUtc)
+  | "body_vUTCOffset_from", [a] => asciiText a fun s => pyS (fun t => toString t.toSeconds) (vUTCOffset_from_ical s)
+  | "body_vInt_from", [a] => asciiText a fun s => pyS (fun z => toString z) (vInt_from_ical s)
+  | "body_vDuration_from", [a, g] =>
+    match decGroups g with
+    | some m => asciiText a fun s => pyS (fun t => toString t.toSeconds) (vDuration_from_ical s m)
+    | none => none
+  | "body_dur_groups", [a] => asciiText a fun s =>
+    match durGroups s with
+    | none => "N"
+    | some (a, b, c, d, e, f) => ";".intercalate ([a, b, c, d, e, f].map encGroup)
   | "body_vDatetime", [y, m, d, h, mi, s, flag, tz] =>
     match ints [y, m, d, h, mi, s] with
     | some [y, m, d, h, mi, s] =>
